@@ -1,1 +1,42 @@
-// access to private items of the parent module (compiled only under --cfg rustdds_verif)
+// access to private items of discovery/discovery_db.rs
+use super::*;
+
+impl DiscoveryDB {
+  /// Canonical text of everything the lease logic reads. `elapsed_cap_ms`
+  /// saturates "time since last life sign" (anything beyond the largest finite
+  /// lease behaves identically).
+  pub(crate) fn verif_lease_digest(&self, now: Instant, elapsed_cap_ms: u128) -> String {
+    let parts: Vec<String> = self
+      .participant_proxies
+      .iter()
+      .map(|(p, d)| {
+        let el = self
+          .participant_last_life_signs
+          .get(p)
+          .map(|t| now.duration_since(*t).as_millis().min(elapsed_cap_ms));
+        format!("{:?}:lease={:?}:el={:?}", p, d.lease_duration, el)
+      })
+      .collect();
+    let orphans: Vec<String> = self
+      .participant_last_life_signs
+      .keys()
+      .filter(|p| !self.participant_proxies.contains_key(p))
+      .map(|p| format!("{p:?}"))
+      .collect();
+    format!(
+      "P{:?} orphan_signs{:?} R{:?} W{:?} RA{:?} WA{:?}",
+      parts,
+      orphans,
+      self.external_topic_readers.keys().collect::<Vec<_>>(),
+      self.external_topic_writers.keys().collect::<Vec<_>>(),
+      self.external_topic_readers_attic.keys().collect::<Vec<_>>(),
+      self.external_topic_writers_attic.keys().collect::<Vec<_>>()
+    )
+  }
+  pub(crate) fn verif_external_readers(&self) -> Vec<GUID> {
+    self.external_topic_readers.keys().copied().collect()
+  }
+  pub(crate) fn verif_external_writers(&self) -> Vec<GUID> {
+    self.external_topic_writers.keys().copied().collect()
+  }
+}
